@@ -651,6 +651,42 @@ impl<S: AsyncWrite + Unpin> AsyncWrite for RateLimited<S> {
     }
 }
 
+/// Verification hooks, compiled only with `--cfg iroh_verif`.
+#[cfg(iroh_verif)]
+pub mod verif_hooks {
+    use super::*;
+
+    /// The relay's internal rate-limited reader ([`RateLimited`]) over an arbitrary
+    /// [`AsyncRead`], driven by a live rate-limit watcher exactly as in the server.
+    #[derive(Debug)]
+    pub struct RateLimitedReader<S>(RateLimited<S>);
+
+    impl<S> RateLimitedReader<S> {
+        /// Calls `RateLimited::from_watcher` with fresh metrics.
+        pub fn from_watcher(
+            io: S,
+            rate_limit_watcher: watch::Receiver<Option<ClientRateLimit>>,
+        ) -> Result<Self, InvalidBucketConfig> {
+            RateLimited::from_watcher(io, rate_limit_watcher, Arc::new(Metrics::default())).map(Self)
+        }
+
+        /// How often reads from this stream have been rate-limited so far.
+        pub fn limited_count(&self) -> u64 {
+            *self.0.limited_watcher().borrow()
+        }
+    }
+
+    impl<S: AsyncRead + Unpin> AsyncRead for RateLimitedReader<S> {
+        fn poll_read(
+            mut self: Pin<&mut Self>,
+            cx: &mut std::task::Context<'_>,
+            buf: &mut tokio::io::ReadBuf<'_>,
+        ) -> Poll<std::io::Result<()>> {
+            Pin::new(&mut self.0).poll_read(cx, buf)
+        }
+    }
+}
+
 #[cfg(test)]
 mod tests {
     use std::sync::Arc;
